@@ -172,6 +172,64 @@ def gen_v2_program(rng):
     return "\n".join(lines) + ("\n" if rng.random() < 0.8 else "")
 
 
+def gen_cont_program(rng):
+    """Valid Colang 2.x programs whose statements are and/or groups broken over several lines (the line break before a
+    continuation line is swallowed by the `_AND` / `_OR` keyword token), nested with brackets, as in the shipped library."""
+    lines = []
+    specs = ["a", "b", "c.Finished()", "Ev(x=1)", 'UtteranceUserAction.Finished(final_transcript="hi")', "wait 2", 'user said "yes"', "$r.Finished()", "greet $x"]
+
+    def group(rng, indent, head, depth=0):
+        """head + first spec, then 1-3 continuation lines"""
+        u = rng.choice(["  ", "    ", " ", "      "])
+        first = rng.choice(specs)
+        if depth < 2 and rng.random() < 0.3:
+            first = "(" + rng.choice(specs) + " " + rng.choice(["and", "or"]) + " " + rng.choice(specs) + ")"
+        out = [indent + head + " " + first]
+        kw = rng.choice(["and", "or"])
+        for _ in range(rng.randrange(1, 4)):
+            nxt = rng.choice(specs)
+            r = rng.random()
+            if depth < 2 and r < 0.2:
+                # nested group in brackets, itself broken over lines (line breaks inside brackets are plain `_NEWLINE`s or keywords)
+                inner_kw = "or" if kw == "and" else "and"
+                out.append(indent + u + kw + " (" + rng.choice(specs))
+                out.append(indent + u + u + inner_kw + " " + rng.choice(specs) + ")")
+                continue
+            if r < 0.3:
+                out.append("")  # blank line inside the group (already part of the keyword token)
+            out.append(indent + u + kw + " " + nxt + (" as $r" if head in ("start", "await") and rng.random() < 0.3 and "(" not in nxt and " " not in nxt else ""))
+        return out
+
+    for f in range(rng.randrange(1, 4)):
+        lines.append(f"flow g{f}" + rng.choice(["", " $x"]))
+        ind = rng.choice(["  ", "    ", "   "])
+        for _ in range(rng.randrange(1, 4)):
+            r = rng.random()
+            if r < 0.55:
+                lines.extend(group(rng, ind, rng.choice(["match", "match", "await", "start", "send", "activate"])))
+            elif r < 0.8:
+                lines.extend(group(rng, ind, "when"))
+                body = ind + rng.choice(["  ", "    "])
+                lines.append(body + rng.choice(["send d", "pass", "match e"]))
+                if rng.random() < 0.5:
+                    g = group(rng, ind, "or when")
+                    lines.extend(g)
+                    lines.append(body + "send f")
+                if rng.random() < 0.3:
+                    lines.append(ind + "else")
+                    lines.append(body + "pass")
+            elif r < 0.9:
+                lines.append(ind + rng.choice(["a", "greet $x", "wait 1"]))
+                lines.append(ind + "  " + rng.choice(["and", "or"]) + " " + rng.choice(["b", "c"]))
+            else:
+                lines.append(ind + rng.choice(["send d", "$x = 1", "match e", "# comment line"]))
+                if lines[-1].endswith("comment line"):
+                    lines.append(ind + "pass")
+        if rng.random() < 0.4:
+            lines.append("")
+    return "\n".join(lines) + "\n"
+
+
 def gen_v1_program(rng):
     lines = []
     u = rng.choice(["  ", "    ", "   "])
@@ -310,6 +368,13 @@ def segment(text):
                         elif v[i] == "\t":
                             pieces.append(["b"])
                             i += 1
+                        elif v[i] == "#":
+                            # a grammar whose _NEWLINE also covers comments (as Lark's Python grammar does): the text is
+                            # still split into the same kinds of pieces, so that the edits and the AST oracle keep working
+                            j = v.find("\n", i)
+                            j = len(v) if j < 0 else (j - 1 if v[j - 1] == "\r" else j)
+                            pieces.append(["c", v[i:j]])
+                            i = j
                         else:
                             return pieces, "unexpected character in _NEWLINE"
                 else:
@@ -360,9 +425,37 @@ OPEN_T = ("LPAR", "LSQB", "LBRACE")
 CLOSE_T = ("RPAR", "RSQB", "RBRACE")
 
 
+KW_T = ("_AND", "_OR")
+SPEC_HEADS = ("MATCH", "AWAIT", "START", "STOP", "ACTIVATE", "DEACTIVATE", "SEND", "WHEN", "_OR_WHEN", "NAME", "LPAR")
+
+
+def is_kw_break(p):
+    """a continuation keyword token that swallowed the line break(s) before it: `(\r?\n[\t ]*)+and ` / `...or `"""
+    return p[0] == "t" and p[1] in KW_T and (p[2].startswith("\n") or p[2].startswith("\r\n"))
+
+
+def break_positions(pieces, kw_only=False):
+    """indices of the line breaks of the text: newline pieces and continuation-keyword tokens"""
+    kws = [i for i, p in enumerate(pieces) if is_kw_break(p)]
+    if kw_only and kws:
+        return kws
+    return [i for i, p in enumerate(pieces) if p[0] == "n" or is_kw_break(p)]
+
+
+def _statement_head(pieces, at):
+    """type of the first token of the statement that contains position `at` (walk back to the previous newline piece)"""
+    j = at - 1
+    head = None
+    while j >= 0 and pieces[j][0] != "n":
+        if pieces[j][0] == "t":
+            head = pieces[j][1]
+        j -= 1
+    return head
+
+
 def apply_edit_v2(pieces, e):
-    """Edits on the segmentation of `content + "\\n"`. Mirrors the list surgery of the theorems."""
-    nls = [i for i, p in enumerate(pieces) if p[0] == "n"]
+    """Edits on the segmentation of `content + "\\n"`. Mirrors the list surgery of the theorems; a line break that a
+    continuation keyword swallowed (`match a⏎  or b`) is edited inside / in front of that keyword token."""
     op = e["op"]
     if op == "scale":
         k = e["k"]
@@ -377,10 +470,15 @@ def apply_edit_v2(pieces, e):
         return out
     if op == "blank0":  # blank line before the first line
         return ws_pieces(e["ws"]) + [["n", e.get("cr", False)]] + pieces
-    if not nls:
+    pos = break_positions(pieces, e.get("kw", False))
+    if not pos:
         return pieces
-    at = nls[e["at"] % len(nls)]
+    at = pos[e["at"] % len(pos)]
+    kw = pieces[at][0] == "t"
     if op == "blank":
+        if kw:
+            p = pieces[at]
+            return pieces[:at] + [["t", p[1], ("\r\n" if e.get("cr", False) else "\n") + e["ws"] + p[2]]] + pieces[at + 1:]
         return pieces[:at] + [["n", e.get("cr", False)]] + ws_pieces(e["ws"]) + pieces[at:]
     if op == "trail":
         return pieces[:at] + ws_pieces(e["ws"]) + pieces[at:]
@@ -399,19 +497,24 @@ def apply_edit_v2(pieces, e):
                 depth += 1 if p[1] in OPEN_T else -1 if p[1] in CLOSE_T else 0
         if depth > 0:
             return pieces
+        # before a continuation keyword: only in and/or groups of specs (match / await / start / when ...), not inside a
+        # multi-line *expression* (`if $x⏎ and $y`), whose text is again a source slice
+        if kw and _statement_head(pieces, at) not in SPEC_HEADS:
+            return pieces
         return pieces[:at] + ws_pieces(e["gap"]) + [["c", e["text"]]] + pieces[at:]
     raise ValueError(op)
 
 
-def gen_edit_v2(rng, allow_tab=True):
+def gen_edit_v2(rng, allow_tab=True, kw=None):
     r = rng.random()
     blanks = ["", "", " ", "    ", "  \t", "\t"] if allow_tab else ["", " ", "    "]
+    kw = (rng.random() < 0.25) if kw is None else kw  # aim at a line break swallowed by an `and` / `or` continuation keyword
     if r < 0.3:
-        return {"op": "blank", "at": rng.randrange(10 ** 6), "ws": rng.choice(blanks), "cr": rng.random() < 0.1}
+        return {"op": "blank", "at": rng.randrange(10 ** 6), "ws": rng.choice(blanks), "cr": rng.random() < 0.1, "kw": kw}
     if r < 0.55:
-        return {"op": "trail", "at": rng.randrange(10 ** 6), "ws": rng.choice([" ", "  ", "     "] + (["\t", " \t"] if allow_tab and rng.random() < 0.3 else []))}
+        return {"op": "trail", "at": rng.randrange(10 ** 6), "kw": kw, "ws": rng.choice([" ", "  ", "     "] + (["\t", " \t"] if allow_tab and rng.random() < 0.3 else []))}
     if r < 0.8:
-        return {"op": "comment", "at": rng.randrange(10 ** 6), "gap": rng.choice(["", " ", "  "]),
+        return {"op": "comment", "at": rng.randrange(10 ** 6), "kw": kw, "gap": rng.choice(["", " ", "  "]),
                 "text": rng.choice(["# note", "#", "# flow x", "#  define y ", "# \"quoted\" 'x'", "# tab\there", "# ünï ✓", "## $v = 1 (", "# ..."])}
     if r < 0.97:
         return {"op": "scale", "k": rng.choice([2, 2, 3, 4])}
@@ -528,10 +631,16 @@ def gen_cases(rng, tier):
         cases.append({"kind": "tok", "lines": gen_tok_lines(rng), "edits": [gen_edit_v2(rng)]})
     for _ in range(n_v2gen):
         cases.append({"kind": "v2", "src": {"text": gen_v2_program(rng)}, "edits": [gen_edit_v2(rng, allow_tab=rng.random() < 0.3) for _ in range(rng.choice([1, 1, 2, 3]))]})
+    for _ in range(n_v2gen // 2):
+        # and/or groups over several lines x every layout edit, half of them aimed at the line break before a continuation line
+        cases.append({"kind": "v2", "src": {"text": gen_cont_program(rng)},
+                      "edits": [gen_edit_v2(rng, allow_tab=False, kw=rng.random() < 0.6) for _ in range(rng.choice([1, 1, 2, 3]))]})
     for _ in range(n_v2file + n_v1file):
         cases.append({"kind": "file", "src": {"file": rng.choice(files)}, "seed": rng.randrange(10 ** 9), "n": rng.choice([1, 1, 2, 3])})
     for _ in range(n_v1gen):
         cases.append({"kind": "v1", "src": {"text": gen_v1_program(rng)}, "edits": [gen_edit_v1(rng) for _ in range(rng.choice([1, 1, 2]))]})
+    cs = cont_sweep_cases()
+    cases.extend(cs if not quick else rng.sample(cs, min(len(cs), 90)))
     if not quick:
         # exhaustive sub-space: every single-line blank / trailing-space edit and scale 2,3 of every shipped file
         for f in files:
@@ -704,13 +813,13 @@ def sweep_file(content, version):
         if prob or render(pieces) != content + "\n":
             res["seg_problem"] = prob or "render"
             return res
-        nn = sum(1 for p in pieces if p[0] == "n")
+        nl_idx = break_positions(pieces)
+        nn = len(nl_idx)
         for at in range(nn):
             variants.append({"op": "blank", "at": at, "ws": "", "cr": False})
             variants.append({"op": "trail", "at": at, "ws": "  "})
             variants.append({"op": "comment", "at": at, "gap": " ", "text": "# c"})
         variants += [{"op": "scale", "k": 2}, {"op": "scale", "k": 3}]
-        nl_idx = [i for i, p in enumerate(pieces) if p[0] == "n"]
         for e in variants:
             t = render(apply_edit_v2(pieces, e))[:-1]
             r = parse_real(t, version)
@@ -864,6 +973,9 @@ def run_err(case):
         content = mutate_text(rng, content)
     content = content.encode("utf-8", "replace").decode("utf-8")  # valid Unicode text only
     obs = in_child(lambda: load_config_dir(content, version), ERR_TIMEOUT)
+    if obs.get("outcome") == "timeout":
+        # a loaded machine must not be mistaken for a hang: a second, three times longer attempt decides
+        obs = in_child(lambda: load_config_dir(content, version), 3 * ERR_TIMEOUT)
     obs["version"] = version
     obs["content"] = content
     obs["lines"] = content.splitlines()
@@ -1148,8 +1260,9 @@ def oracle(case, obs):
             return f"the program parses without its blank lines but not with them: {obs['ast'].get('exc')}: {obs['ast'].get('msg', '')[:120]}"
         if "ast" not in obs or "ok" not in obs["ast"]:
             return None  # the original is not a valid program: nothing is claimed
-        if obs.get("version") == "2.x" and not obs.get("reseg_same"):
-            return None  # the edit fell inside a token (e.g. a comment appended to a comment): not a layout edit
+        # NOTE: whether the edited text re-segments to the edited pieces (`reseg_same`) is NOT a precondition here: it is computed
+        # with the lexer under test, and a lexer change that glues an end-of-line comment to the following line break would
+        # excuse itself.  The edits are layout edits by construction (apply_edit_v2 checks the neighbouring pieces).
         e = obs["east"]
         if "ok" not in e:
             return f"layout edit makes a valid file unparsable: {e.get('exc')}: {e.get('msg', '')[:160]}"
@@ -1281,5 +1394,32 @@ def shrink(case):
         yield dict(case, n=case["n"] - 1)
 
 
+def cont_sweep_cases():
+    """every line break swallowed by a continuation keyword, in every shipped 2.x file that has one, x {comment, blank, trailing blanks}"""
+    out = []
+    for f in shipped():
+        try:
+            content = read_src({"file": f})
+            if not _is_v2(content) or not re.search(r"\n[ \t]*(and|or)[ \t]", content):
+                continue
+            pieces, prob = segment(content + "\n")
+        except Exception:  # noqa
+            continue
+        if prob:
+            continue
+        nk = sum(1 for p in pieces if is_kw_break(p))
+        for at in range(min(nk, 40)):
+            out.append({"kind": "v2", "src": {"file": f}, "edits": [{"op": "comment", "at": at, "kw": True, "gap": " ", "text": "# c"}]})
+            out.append({"kind": "v2", "src": {"file": f}, "edits": [{"op": "blank", "at": at, "kw": True, "ws": "  ", "cr": False}]})
+            out.append({"kind": "v2", "src": {"file": f}, "edits": [{"op": "trail", "at": at, "kw": True, "ws": "  "}]})
+    return out
+
+
 def escalate(rng, focus, tier):
-    return gen_cases(rng, "quick")
+    """focused search after a broken tie/proof: the generic quick mix, plus and/or continuation groups (generated, and every
+    continuation line of the shipped files) under every layout edit"""
+    cases = gen_cases(rng, "quick")
+    for _ in range(600):
+        cases.append({"kind": "v2", "src": {"text": gen_cont_program(rng)},
+                      "edits": [gen_edit_v2(rng, allow_tab=False, kw=True) for _ in range(rng.choice([1, 1, 2]))]})
+    return cont_sweep_cases() + cases
